@@ -35,8 +35,8 @@ def _rank(a, b):
 
 
 class Site:
-    def __init__(self, func, lineno, text, origin, kind):
-        self.func, self.lineno, self.text, self.origin, self.kind = func, lineno, text, origin, kind
+    def __init__(self, func, lineno, text, origin, kind, target=""):
+        self.func, self.lineno, self.text, self.origin, self.kind, self.target = func, lineno, text, origin, kind, target
 
     def ok(self):
         return self.origin in (FRESH, OWN)
@@ -65,6 +65,9 @@ class Analyzer:
         if isinstance(node, ast.Attribute):
             base = self.origin(node.value, env)
             if isinstance(node.value, ast.Name) and node.value.id == "self":
+                key = "self.%s" % node.attr
+                if key in env and env[key] in (ALIAS, SHARED):
+                    return env[key]        # the attribute was bound to a parameter / shared object in this call
                 if self.owned is None or node.attr in self.owned:
                     return OWN
                 return SHARED
@@ -118,7 +121,7 @@ class Analyzer:
     def _site(self, fname, node, target, env, kind):
         base = self._base(target)
         org = self.origin(base, env)
-        self.sites.append(Site(fname, getattr(node, "lineno", 0), ast.unparse(node)[:120], org, kind))
+        self.sites.append(Site(fname, getattr(node, "lineno", 0), ast.unparse(node)[:120], org, kind, ast.unparse(base)))
 
     def _store_target(self, fname, st, tgt, env, value_origin):
         if isinstance(tgt, ast.Name):
@@ -130,6 +133,7 @@ class Analyzer:
             self._site(fname, st, tgt.value, env, "item-store")
         elif isinstance(tgt, ast.Attribute):
             if isinstance(tgt.value, ast.Name) and tgt.value.id == "self":
+                env["self.%s" % tgt.attr] = value_origin
                 if self.owned is not None and tgt.attr not in self.owned:
                     self.sites.append(Site(fname, st.lineno, ast.unparse(st)[:120], SHARED, "attribute-store(self.%s not documented state)" % tgt.attr))
                 else:
